@@ -71,4 +71,34 @@ theorem platform_forgotten :
     loadable (storedPlatforms onHpc.plat) onHpc.plat = true ∧
     loadable (storedPlatforms (reloadAs 4 onHpc 0).plat) onHpc.plat = false := by decide
 
+/-! ### why the stored description must keep explicitly empty collections
+
+`FlowIR.compress_flowir` (the call sits commented out in `store_unreplicated_flowir_to_disk`) would drop every
+empty dict/list before dumping.  For a list option whose inherited value is not empty that changes the experiment:
+blueprint `restartHookOn: [K]`, component `restartHookOn: []` (path 2; characters 91 `[`, 75 `K`, 93 `]`). -/
+
+def docEmpty : Doc :=
+  { vars := [(0, ⟨[], []⟩)], bps := [(0, ⟨[(2, [.ch 91, .ch 75, .ch 93])], []⟩)],
+    comps := [{ stage := 0, name := 1, isDoc := false, opts := [(2, [.ch 91, .ch 93])], vars := [], ovr := [] }] }
+
+def expEmpty : Exp := { doc := docEmpty, plat := 0, patches := [] }
+
+/-- the value `[]` -/
+def isEmptyList (t : Tmpl) : Bool := t == [.ch 91, .ch 93]
+
+/-- the store as it is keeps `[]`: same configuration after the reload, same description after a second store -/
+theorem store_keeps_empty_list :
+    runningConfig 4 expEmpty = [⟨0, 1, [(2, [.ch 91, .ch 93])], []⟩] ∧
+    runningConfig 4 (reload 4 expEmpty) = runningConfig 4 expEmpty ∧
+    store 4 (reload 4 expEmpty) = store 4 expEmpty := by decide
+
+/-- a compressing store loses it: the reloaded component inherits the blueprint's list (the configuration
+differs), and storing again folds that list into the component (the stored description changes once more) -/
+theorem compressing_store_breaks_both_clauses :
+    resolves 4 expEmpty.doc expEmpty.plat = true ∧
+    runningConfig 4 (reloadCompressed isEmptyList 4 expEmpty) = [⟨0, 1, [(2, [.ch 91, .ch 75, .ch 93])], []⟩] ∧
+    runningConfig 4 (reloadCompressed isEmptyList 4 expEmpty) ≠ runningConfig 4 expEmpty ∧
+    storeCompressed isEmptyList 4 (reloadCompressed isEmptyList 4 expEmpty) ≠ storeCompressed isEmptyList 4 expEmpty := by
+  decide
+
 end St4sd.C07.Witness
